@@ -57,5 +57,9 @@ func acquireWriterState() *writerState {
 
 func releaseWriterState(s *writerState) {
 	s.reset()
+
+	// Clear the flags of the previous writer, the next one sets only its own
+	s.releaseState = false
+	s.releaseWriter = false
 	writerStatePool.Put(s)
 }
